@@ -163,16 +163,18 @@ theorem readLoop_spec (hS : Setup P c aL aS nL n) (hA : Accepts P c aL aS nL n) 
     by_cases hemp : s1.blocks.isEmpty = true
     · simp only [hemp, if_true]
       have hnil : s1.blocks = [] := List.isEmpty_iff.mp hemp
-      by_cases hn0 : s1.nbPkt = 0
-      · simp only [hn0, if_true]
-        have hlen : P.len ≠ 0 := by have := hS.l_pos; omega
-        simp [hlen, LoopPost]
-      · simp only [hn0, if_false]
+      have hpost : LoopPost P c aL aS nL n force tr s (.none, s1) := by
         refine ⟨hI1, hT1, hnil, ?_, hcl, hst, hsrc, hnb⟩
         intro hw
         rcases hfull (by omega) with h | h
         · exact h
         · rw [hnil] at h; simp at h; omega
+      by_cases hn0 : s1.nbPkt = 0
+      · simp only [hn0, if_true]
+        have hlen : P.len ≠ 0 := by have := hS.l_pos; omega
+        rw [if_pos hlen]; exact hpost
+      · simp only [hn0, if_false]
+        exact hpost
     · simp only [hemp, Bool.false_eq_true, if_false]
       have hne : s1.blocks ≠ [] := fun h => hemp (List.isEmpty_iff.mpr h)
       have hlen : 0 < s1.blocks.length := List.length_pos_iff.mpr hne
